@@ -210,6 +210,9 @@ func genNameLabel(rng *rand.Rand) string {
 			n = 15
 		}
 		l = "_" + genLabel(rng, n)
+	case 7:
+		// adjacent hyphens, in host and service labels
+		l = pick(rng, "a--b", "_a--b", "_my--svc", "x---y", "_--", "xn--a--b", "_a-", "_-a")
 	}
 	return l
 }
